@@ -279,6 +279,28 @@ pub struct FieldErr {
 }
 proj_struct!(FieldErr { a, inner, c, d, v });
 
+/// container-level `error =`: the impl is for one concrete error type (no generic parameter is added)
+#[derive(Deserr, Debug)]
+#[deserr(error = monitor::Rec, deny_unknown_fields)]
+pub struct FixedErr {
+    a: u8,
+    #[deserr(default)]
+    b: Option<String>,
+    inner: Plain,
+    #[deserr(try_from(u64) = vf::try_even -> vf::Odd)]
+    c: u64,
+    list: Vec<i8>,
+}
+proj_struct!(FixedErr { a, b, inner, c, list });
+
+#[derive(Deserr, Debug)]
+#[deserr(error = monitor::Rec, tag = "k", validate = vf::val_leaves -> vf::ValErr)]
+pub enum FixedErrEnum {
+    A { x: u8, y: (u8, bool) },
+    B,
+}
+proj_enum!(FixedErrEnum { A { x, y }, B });
+
 #[derive(Deserr, Debug)]
 #[deserr(validate = vf::val_leaves -> vf::ValErr)]
 pub struct Validated {
@@ -651,6 +673,14 @@ pub fn defs() -> Defs {
             f("v", vec(i(8))).err2(),
         ],
     )));
+    d.add(st(StructDef {
+        deny: Deny::Default,
+        ..sdef("FixedErr", vec![f("a", u(8)), f("b", opt(Ty::Str)).default(Proj::None), f("inner", named("Plain")), f("c", u(64)).try_from("try_even"), f("list", vec(i(8)))])
+    }));
+    d.add(Def::Enum(EnumDef {
+        validate: Some("val_leaves".into()),
+        ..edef("FixedErrEnum", "k", vec![vd("A", "A", Some(vec![f("x", u(8)), f("y", tup(vec![u(8), Ty::Bool]))])), vd("B", "B", None)])
+    }));
     d.add(st(StructDef { validate: Some("val_leaves".into()), ..sdef("Validated", vec![f("a", u(8)), f("b", opt(u(8))), f("c", vec(u(8)))]) }));
     d.add(Def::Enum(EnumDef {
         validate: Some("val_leaves".into()),
@@ -852,6 +882,8 @@ pub fn registry() -> Registry {
     r.all::<MissingCustom>("MissingCustom", named("MissingCustom"), &["derive", "custom-fn"]);
     r.all::<ConvS>("ConvS", named("ConvS"), &["derive", "conv"]);
     r.rec::<FieldErr>("FieldErr", named("FieldErr"), &["derive", "conv", "err2"]);
+    r.rec::<FixedErr>("FixedErr", named("FixedErr"), &["derive", "conv", "deny", "fixed-error"]);
+    r.rec::<FixedErrEnum>("FixedErrEnum", named("FixedErrEnum"), &["derive", "conv", "enum", "validate", "fixed-error"]);
     r.all::<Validated>("Validated", named("Validated"), &["derive", "conv", "validate"]);
     r.all::<ValidatedEnum>("ValidatedEnum", named("ValidatedEnum"), &["derive", "conv", "validate", "enum"]);
     r.all::<CFrom>("CFrom", named("CFrom"), &["derive", "conv"]);
